@@ -11,7 +11,7 @@ CLAIMED = {
  "C03": ("exploration", "5.C03", "seeded schedule search; deterministic livelock/step-cap/watchdog detectors; execution counters (marker commands) and R-seq completeness",
          "Termination is decided without wall-clock: after the last delivery the coordinator must leave each loop on its next poll. Exactly-once is counted through side-effect markers of run commands. Sampled digraphs (cyclic ones included), duplicate and aliased inputs, K in {1,2,3,4,8,16}."),
  "C04": ("fault_enumeration", "5.C04", "enumerated grid fault kind x position x mode, each cell instantiated on seeded DAG projects under seeded schedules; real OS faults (EISDIR, ENOENT, ENOSPC via /dev/full, unwritable /proc target, invalid UTF-8); CLI exit status cross-check",
-         "228 cells (17 fault kinds x 5 positions x the modes in which the fault is meaningful), >= 12 instances per cell per quick run; the failing result reaches the coordinator first / last / between others with and without tasks in flight (early return and Drop drain). RLIMIT_FSIZE (F8) cells are not implemented in this round (see DESIGN.md)."),
+         "265 cells (19 fault kinds x 5 positions x the modes in which the fault is meaningful, DESIGN.md C04 table), about 22 cases per cell per quick run (2 schedules per generated instance); the failing result reaches the coordinator first / last / between others with and without tasks in flight (early return and Drop drain). RLIMIT_FSIZE (F8) is applied in-process around the simulated run with byte-exact limits derived from the sizes a reference build produces; every 8th case is repeated through the real binary."),
  "C05": ("exploration", "5.C05", "seeded schedule search over cyclic digraph projects; verdict + liveness + acyclic part vs R-seq",
          "Self-loops, 2-cycles, longer cycles, upstream files and bystanders under seeded schedules; thorough tier sweeps every labelled digraph with self-loops on <=4 files."),
  "C06": ("exploration", "5.C06", "seeded histories (build, verify, single-point tampering / flag flip / source edit, verify) with every invocation under the controller; oracle = fresh R-seq of the current sources + inode/mtime-exact snapshot diff",
